@@ -93,6 +93,9 @@ pub struct Interp<'c, K: KeyT, V: ValT> {
     /// a destructor panic was injected: leaked elements / blocks are allowed from now on
     leak_ok: bool,
     trace: bool,
+    c13: bool,
+    pub c13_max_ratio: u64,
+    pub basic_ops: u64,
 }
 
 fn keep(id: u32, salt: u64, pct: u64) -> bool {
@@ -110,6 +113,21 @@ where
         world::with(|w| {
             w.default_plan = plan;
             w.chaos.mode = case.h("chaos") as u32;
+            let n = (case.h_or("tape_len", 16) as usize).clamp(1, 256);
+            let ts = case.h("tape_seed");
+            let small = case.h("tape_small") != 0;
+            w.chaos.hash_tape = (0..n)
+                .map(|i| {
+                    let r = splitmix64(ts.wrapping_add(i as u64));
+                    if small {
+                        // a few values only: collisions in position and tag are common
+                        [0u64, u64::MAX, 0x0100_0000_0000_0007, 0xFE00_0000_0000_0010][(r % 4) as usize]
+                    } else {
+                        r
+                    }
+                })
+                .collect();
+            w.chaos.eq_tape = (0..n).map(|i| splitmix64(ts.wrapping_mul(31).wrapping_add(i as u64)) & 1 == 1).collect();
         });
         let cap = case.h("cap") as usize;
         let map = {
@@ -140,6 +158,9 @@ where
             c13_peak_live: 0,
             leak_ok: false,
             trace: case.h("trace") != 0,
+            c13: case.h("c13") != 0,
+            c13_max_ratio: 0,
+            basic_ops: 0,
         }
     }
 
@@ -576,6 +597,90 @@ where
                     }
                 }
             }
+            ops::MIRROR_TO_OTHER => {
+                // give the other map the same pairs through its own history: remove what it holds
+                // (leaving tombstones), then insert this map's pairs in another order
+                self.ensure_other();
+                let other = self.cur ^ 1;
+                let pairs: Vec<(u32, u64)> = self.slots[self.cur].model.iter().map(|e| (e.id, e.val)).collect();
+                while let Some(id) = self.slots[other].model.first().map(|e| e.id) {
+                    self.remove_key(other, id, 0)?;
+                }
+                let order: Vec<usize> = match a[0] % 3 {
+                    0 => (0..pairs.len()).rev().collect(),
+                    1 => (0..pairs.len()).collect(),
+                    _ => (0..pairs.len()).map(|i| (i * 7 + 3) % pairs.len().max(1)).collect::<std::collections::BTreeSet<_>>().into_iter().rev().collect(),
+                };
+                let mut done = vec![false; pairs.len()];
+                for i in order.into_iter().chain(0..pairs.len()) {
+                    if done[i] {
+                        continue;
+                    }
+                    done[i] = true;
+                    let g = self.gen();
+                    let s = &mut self.slots[other];
+                    s.map.insert(K::new(pairs[i].0, g), V::new(pairs[i].1));
+                    Self::model_insert(&mut s.model, pairs[i].0, g, pairs[i].1);
+                }
+                self.eq_op()?;
+            }
+            ops::CAPPED_CHURN => {
+                // C13: `rounds` insertions with the live count capped at `live_cap`: when the cap is
+                // reached one element is removed first, chosen by the removal pattern
+                let cap_n = (self.case.h_or("live_cap", 8) as usize).max(1);
+                let pattern = a[1] % 5;
+                for r in 0..(a[0] % 65) {
+                    while self.slots[self.cur].model.len() >= cap_n {
+                        let len = self.slots[self.cur].model.len();
+                        let idx = match pattern {
+                            0 => 0,                                   // FIFO
+                            1 => len - 1,                             // LIFO
+                            2 => frac_index(splitmix64(a[2] ^ r) & 0xffff, len), // random
+                            3 => {
+                                // clustered: the element stored in the first full bucket at/after a position
+                                let s = &self.slots[self.cur];
+                                let d = Self::dump_of(&s.map);
+                                let start = frac_index(a[2], d.buckets());
+                                let mut found = 0;
+                                for j in 0..d.buckets() {
+                                    if let Some((k, _)) = s.map.verif_bucket((start + j) & d.bucket_mask) {
+                                        found = Self::mpos(&s.model, k.id()).unwrap_or(0);
+                                        break;
+                                    }
+                                }
+                                found
+                            }
+                            _ => (r as usize) % len,                  // alternate
+                        };
+                        let id = self.slots[self.cur].model[idx].id;
+                        self.remove_key(self.cur, id, (r % 3) as u64)?;
+                        self.basic_ops += 1;
+                        // a lookup of an absent key after every removal
+                        let absent = self.fresh_id();
+                        if self.slots[self.cur].map.get(&KeyRef(absent)).is_some() {
+                            bad!("C01", "absent-key-found", "never-inserted key {absent} was found");
+                        }
+                    }
+                    let id = if a[3] % 2 == 0 { self.fresh_id() } else { self.kid(a[2].wrapping_add(r)) };
+                    let g = self.gen();
+                    let s = &mut self.slots[self.cur];
+                    if r % 2 == 0 {
+                        let old = s.map.insert(K::new(id, g), V::new(id as u64));
+                        let want = Self::model_insert(&mut s.model, id, g, id as u64);
+                        if old.map(|v| v.get()) != want {
+                            bad!("C01", "insert-return", "insert({id}) disagrees with the model");
+                        }
+                    } else {
+                        let present = Self::mpos(&s.model, id).is_some();
+                        let r = s.map.entry(K::new(id, g)).or_insert(V::new(id as u64));
+                        r.check("entry or_insert");
+                        if !present {
+                            s.model.push(ME { id, gen: g, val: id as u64 });
+                        }
+                    }
+                    self.basic_ops += 1;
+                }
+            }
             ops::ITER => self.iter_op(a[0] % 9, a[1], a[2] % 5)?,
             ops::DRAIN => self.drain_op(a[0], a[1] % 2)?,
             ops::EXTRACT_IF => self.extract_if_op(a[0], a[1] % 101, a[2], a[3] % 2 == 1)?,
@@ -646,7 +751,7 @@ where
                 None => (None, None),
             },
             _ => {
-                if want.is_some() {
+                if want.is_some() && self.lawful {
                     let key = K::new(k, 0);
                     let v = &s.map[&key];
                     v.check("index value");
@@ -732,7 +837,7 @@ where
         let s = &mut self.slots[self.cur];
         let pre = Self::dump_of(&s.map);
         if pre.growth_left == 0 && !pre.is_singleton {
-            self.labels |= dump::L_PROP_A; // entry created at growth_left == 0
+            self.labels |= dump::L_ENTRY_AT_FULL; // entry created at growth_left == 0
         }
         let present = Self::mpos(&s.model, k);
         let e = s.map.entry(K::new(k, g));
@@ -976,7 +1081,7 @@ where
         let s = &mut self.slots[self.cur];
         let pre = Self::dump_of(&s.map);
         if pre.growth_left == 0 && !pre.is_singleton {
-            self.labels |= dump::L_PROP_A;
+            self.labels |= dump::L_ENTRY_AT_FULL;
         }
         let present = Self::mpos(&s.model, k);
         let kr = KeyRef(k);
@@ -1316,7 +1421,7 @@ where
                 let w = before.group_width;
                 let pos = (h as usize) & before.bucket_mask;
                 if !before.is_singleton && (0..w).any(|j| before.ctrl[pos + j] == dump::DELETED) {
-                    self.labels |= dump::L_PROP_B;
+                    self.labels |= dump::L_PROBE_TOMB;
                 }
             }
         }
@@ -1345,7 +1450,19 @@ where
                     detail: format!("operation panicked (injected={injected}): {msg}"),
                 });
             }
-            Ok(Err(b)) => return Err(self.to_violation(step, b)),
+            Ok(Err(b)) => {
+                if self.lawful {
+                    return Err(self.to_violation(step, b));
+                }
+                // inconsistent Hash/Eq answers: results are unspecified, only the safety subset counts
+                let counting = matches!(b.1, "yields-fewer" | "yields-more" | "size_hint" | "fold-count" | "for_each-count" | "count" | "not-fused");
+                if matches!(b.0, "C02" | "C03" | "C05" | "C13") {
+                    return Err(self.to_violation(step, b));
+                } else if b.0 == "C09" && counting {
+                    return Err(self.to_violation(step, ("C05", b.1, b.2)));
+                }
+                self.resync();
+            }
             Ok(Ok(())) => {}
         }
         let key = match op.code {
@@ -1356,6 +1473,14 @@ where
         };
         if let Err(b) = self.check_state(key) {
             return Err(self.to_violation(step, b));
+        }
+        if !self.lawful {
+            self.resync();
+        }
+        if self.c13 {
+            if let Err(b) = self.c13_check() {
+                return Err(self.to_violation(step, b));
+            }
         }
         let l0 = self.labels;
         self.labels = 0;
@@ -1379,6 +1504,34 @@ where
         self.c13_peak_live = self.c13_peak_live.max(live);
     }
 
+    /// Model := observed contents (after unspecified results under inconsistent Hash/Eq).
+    fn resync(&mut self) {
+        let _q = Quiet::new();
+        for s in self.slots.iter_mut() {
+            s.model = s.map.iter().map(|(k, v)| ME { id: k.id(), gen: k.gen(), val: v.get() }).collect();
+        }
+    }
+
+    /// C13: the allocation stays below that of with_capacity(4 * peak live count).
+    fn c13_check(&mut self) -> Result<(), Bad> {
+        let live = self.slots[self.cur].model.len() + 1;
+        if live > self.c13_peak_live || self.c13_bound == 0 {
+            self.c13_peak_live = self.c13_peak_live.max(live);
+            let plan = self.slots[self.cur].plan;
+            let fresh: Map<K, V> = Map::with_capacity_and_hasher_in(4 * self.c13_peak_live.max(1), PlanBuildHasher::new(plan), CheckAlloc);
+            self.c13_bound = fresh.allocation_size();
+        }
+        let sz = self.slots[self.cur].map.allocation_size();
+        let ratio = (sz as u64 * 1000 / self.c13_bound.max(1) as u64) as u64;
+        if ratio > self.c13_max_ratio {
+            self.c13_max_ratio = ratio;
+        }
+        if sz > self.c13_bound {
+            bad!("C13", "allocation-exceeds-bound", "allocation_size {} > {} = with_capacity(4 * peak live {}) ", sz, self.c13_bound, self.c13_peak_live);
+        }
+        Ok(())
+    }
+
     /// End of case: final sweep, drop everything, then the global ledgers must balance.
     pub fn finish(mut self, step: usize) -> (Outcome, Option<Violation>) {
         let mut v = None;
@@ -1390,6 +1543,11 @@ where
         let labels = self.labels;
         let mut out = std::mem::take(&mut self.out);
         out.labels = labels;
+        if self.c13 {
+            out.count("max_c13_ratio_permille", self.c13_max_ratio);
+            out.count("basic_ops", self.basic_ops);
+            out.count("max_peak_live", self.c13_peak_live as u64);
+        }
         if v.is_some() {
             std::mem::forget(self.slots);
             return (out, v);
